@@ -1,7 +1,7 @@
 (** Correspondence + spec search for the driver lab (C01, C02, C04, C05, C06, C09): one case = one
     SendProbe / ReceiveProbe / ReadHandshake of a real driver over the simulated wire. *)
 From Coq Require Import List ZArith Bool.
-From TR Require Import Lib.Sx Lib.Bytes Wire.Decode Wire.Build Drv.Drivers Drv.Handshake Spec.C01 Spec.C06 Run.Eng.
+From TR Require Import Lib.Sx Lib.Bytes Wire.Decode Wire.Build Drv.Drivers Drv.Handshake Spec.C01 Spec.C06 Run.Eng Bpf.Vm Spec.C12 Generated.BpfProgs.
 Import ListNotations.
 Open Scope Z_scope.
 
@@ -35,6 +35,27 @@ Definition enc_outcome (o : outcome) : sx :=
   | Fatal => L [A 3]
   end.
 
+(** the frame as the AF_PACKET source sees it: Ethernet header + IP packet *)
+Definition ether (ip : bytes) : bytes :=
+  [2; 0; 0; 0; 0; 1; 2; 0; 0; 0; 0; 2] ++ (match ip with v :: _ => if v / 16 =? 6 then [134; 221] else [8; 0] | [] => [8; 0] end) ++ ip.
+
+Definition addr32 (a : bytes) : Z := match a with [w; x; y; z] => be32 w x y z | _ => 0 end.
+
+(** the capture filter the protocol's entry point installs (packets/cbpf_filters.go, tcp_filter.go), from the
+    programs regenerated from the source on this run; None: no filter exists for this family *)
+Definition installed_filter (c : cfg) : option (list instr) :=
+  match c_variant c with
+  | VIcmp | VUdp => Some (prog_of raw_icmp)
+  | VTcp | VSack => if is_v6 c then None else Some (prog_of (raw_tcp4 (addr32 (c_target c)) (addr32 (c_local c)) (c_dport c) (c_sport c)))
+  end.
+
+Definition filter_passes (c : cfg) (frame : bytes) : option bool :=
+  match installed_filter c with Some p => Some (accepts p (ether frame)) | None => None end.
+
+(** IPv6 with a hop-by-hop header first: the one frame shape recorded as a known finding *)
+Definition v6_hop_by_hop (frame : bytes) : bool :=
+  match frame with v :: _ => (v / 16 =? 6) && (nth 6 frame (-1) =? 0) | [] => false end.
+
 Definition variant_code (c : cfg) : Z := match c_variant c with VIcmp => 0 | VUdp => 1 | VTcp => 2 | VSack => 3 end.
 
 Definition check_drv (prop : Z) (inp impl : sx) : sx :=
@@ -55,6 +76,7 @@ Definition check_drv (prop : Z) (inp impl : sx) : sx :=
                     if (prop =? 6) && negb (ok =? 0) then
                       (if negb (probe_wf c ttl pkt) then [6; 1]                       (* malformed / wrong TTL / bad length or checksum *)
                        else if negb (probe_flow_ok c pkt) then [6; 2]                  (* flow fields differ from the run's *)
+                       else if negb (wire_id_ok c ttl rnd pkt) then [6; 3]              (* the identifier on the wire is not this TTL's (injective) per-probe identifier *)
                        else if existsb (fun s => negb (s_ttl s =? ttl) && probe_id_clash c s ttl rnd) st then [6; 3]   (* identifier shared with the probe of another TTL *)
                        else [])
                     else if (prop =? 19) && negb (ok =? 0) && negb (probe_ttl_byte pkt =? ttl) then [19; 1]
@@ -70,7 +92,7 @@ Definition check_drv (prop : Z) (inp impl : sx) : sx :=
               | None => badcase
               end
           (* ---------------- ReceiveProbe *)
-          | L [A 1; A now; frame; A exp_ttl; exp_ip], L [A cls_i; A ttl_i; ip_i; A dest_i; A rtt_i] =>
+          | L [A 1; A now; frame; A exp_ttl; exp_ip], L [A cls_i; A ttl_i; ip_i; A dest_i; A rtt_i; A fpass] =>
               match sx_bytes frame, sx_bytes ip_i, sx_bytes exp_ip with
               | Some frame, Some ip_i, Some exp_ip =>
                   let pv := frame_parse frame in
@@ -92,7 +114,7 @@ Definition check_drv (prop : Z) (inp impl : sx) : sx :=
                       match pv with
                       | PView v =>
                           (* C01: a hop is backed by a genuine reply to the probe with that TTL, sent by that address *)
-                          if ((prop =? 1) || (prop =? 11)) && negb (genuine c st v ttl_i && bytes_eqb (v_src v) ip_i) then [1]
+                          if ((prop =? 1) || (prop =? 11) || (prop =? 5)) && negb (genuine c st v ttl_i && bytes_eqb (v_src v) ip_i) then [1]
                           (* C04: destination flag iff proof of arrival *)
                           else if (prop =? 4) && negb (Bool.eqb dest (proof_of_arrival c v)) then [4]
                           (* C05: the RTT is measured against that same probe's send time, never negative *)
@@ -105,6 +127,12 @@ Definition check_drv (prop : Z) (inp impl : sx) : sx :=
                     else if (prop =? 2) && (exp_ttl =? -2) && negb (cls_i =? 2) then [2; 2]
                     else [] in
                   let spec_fail := if (prop =? 2) && (0 <=? exp_ttl) && (cls_i =? 1) && negb ((ttl_i =? exp_ttl) && bytes_eqb ip_i exp_ip) then [2; 1] else spec_fail in
+                  (* C12 (and C02 for the catalogue forms): the installed capture filter lets through every frame the matcher turns into a hop *)
+                  let spec_fail := match spec_fail with
+                                   | _ :: _ => spec_fail
+                                   | [] => if (cls_i =? 1) && (fpass =? 0) && ((prop =? 12) || ((prop =? 2) && (0 <=? exp_ttl)))
+                                           then (if v6_hop_by_hop frame then [6; 0] else [6; 1]) else []
+                                   end in
                   match spec_fail with
                   | _ :: _ => verdict V_SPECFAIL cls spec_fail (enc_outcome (recv c st frame now))
                   | [] =>
@@ -116,17 +144,28 @@ Definition check_drv (prop : Z) (inp impl : sx) : sx :=
                         | NotSupported => cls_i =? 2
                         | Fatal => cls_i =? 3
                         end in
-                      if agree then verdict V_OK cls [] (L []) else verdict V_DIVERGE cls [] (enc_outcome m)
+                      let fagree := if prop =? 12 then match filter_passes c frame with
+                                                         | Some b => Bool.eqb b (negb (fpass =? 0)) && negb (fpass =? -2)
+                                                         | None => fpass =? -2 end else true in
+                      if agree && fagree then verdict V_OK cls [] (L []) else verdict V_DIVERGE cls [] (enc_outcome m)
                   end
               | _, _, _ => badcase
               end
           (* ---------------- SACK ReadHandshake *)
-          | L [A 2; A now; L frames], L [A status; A iseq; A iack; A hts; A tsv; A tse] =>
+          | L [A 2; A now; L frames], L [A status; A iseq; A iack; A hts; A tsv; A tse; L fverd] =>
               match dec_list sx_bytes frames with
               | Some frames =>
                   let cls := 24 + vc + 32 * status in
                   let m := read_handshake c frames in
                   if (prop =? 9) && (status =? 4) then verdict V_SPECFAIL cls [9; 1] (L [])
+                  (* C12: the SYN-ACK that establishes the handshake passes the SYN-ACK capture filter *)
+                  else if (prop =? 12) && (status =? 1)
+                          && negb (existsb (fun fv => match fv with
+                                                      | (f, A v) => negb (v =? 0) && match frame_parse f with
+                                                                                     | PView vw => match handle_handshake c vw with HDone _ => true | _ => false end
+                                                                                     | _ => false end
+                                                      | _ => false end) (combine frames fverd))
+                  then verdict V_SPECFAIL cls [6; 2] (L [])
                   else
                   let agree :=
                     match m with
